@@ -709,16 +709,48 @@ fn do_merge(ctx: &mut Ctx, st: &mut SeqState, scn: &StoreScn, or: &Oracles, i: u
             ctx.viol("merge-grew-store", format!("op#{} merge grew the data files from {} to {} bytes", i, b, a), "");
         }
         if all_eligible {
-            let want: u64 = st.model.iter().map(|(k, v)| scan::entry_size(k, v)).sum();
+            // the size of a fresh store (real code, separate directory, no size limit, no
+            // background tasks) holding exactly the live pairs
+            let want: u64 = {
+                let frel = ctx.new_dir("f");
+                let mut fcfg = StoreCfg::default();
+                fcfg.max_file_size = u64::MAX;
+                fcfg.merge_always = false;
+                fcfg.pool = 1;
+                let mut total = 0;
+                match open_store(ctx, &frel, &fcfg) {
+                    Ok(fs) => {
+                        for (k, v) in st.model.iter() {
+                            let _ = set(&fs.h, k, v.clone());
+                        }
+                        drop(fs);
+                        // its background thread has nothing to wait for (no merge policy, no
+                        // sync interval); the main store's worker may be alive, so no join
+                        ctx.settle();
+                        total = data_total(&dir_image(ctx.sim, &frel, u64::MAX));
+                    }
+                    Err(_) => ctx.settle(),
+                }
+                remove_dir(ctx, &frel);
+                total
+            };
+            let formula: u64 = st.model.iter().map(|(k, v)| scan::entry_size(k, v)).sum();
+            if formula != want {
+                // the on-disk format is not the one the independent decoder knows: rely on
+                // the fresh store only
+                ctx.sim.probe("fresh_store_size_differs_from_format_formula");
+            }
             if a != want {
                 ctx.viol(
                     "merge-not-minimal",
-                    format!("op#{} merge with every non-empty file eligible left {} bytes of data files; a fresh store with the {} live pairs needs {}", i, a, st.model.len(), want),
+                    format!("op#{} merge with every non-empty file eligible left {} bytes of data files; a fresh store with the {} live pairs takes {}", i, a, st.model.len(), want),
                     "",
                 );
             }
-            // every live key exactly once, no tombstone, no dead entry
+            // every live key exactly once, no tombstone, no dead entry (only where the
+            // independent decoder understands the files completely)
             let t = scan::truth_of(&after_img);
+            let parseable = t.torn.is_empty() && formula == want;
             let mut seen: BTreeMap<Vec<u8>, u32> = BTreeMap::new();
             let mut tombs = 0;
             for recs in t.files.values() {
@@ -729,7 +761,7 @@ fn do_merge(ctx: &mut Ctx, st: &mut SeqState, scn: &StoreScn, or: &Oracles, i: u
                     *seen.entry(r.key.clone()).or_insert(0) += 1;
                 }
             }
-            if tombs > 0 || seen.values().any(|c| *c != 1) || seen.len() != st.model.len() {
+            if parseable && (tombs > 0 || seen.values().any(|c| *c != 1) || seen.len() != st.model.len()) {
                 ctx.viol(
                     "merge-not-minimal",
                     format!("op#{} after an all-files merge the data files hold {} tombstones and {} distinct keys ({} live in the model), some more than once", i, tombs, seen.len(), st.model.len()),
@@ -911,6 +943,12 @@ fn check_accounting(ctx: &mut Ctx, st: &SeqState, i: usize) {
     let d = s.h.verif_dump();
     let img = dir_image(ctx.sim, &s.rel, u64::MAX);
     let t = scan::truth_of(&img);
+    if !t.torn.is_empty() {
+        // a file of a fault-free, crash-free run that the independent decoder cannot read to
+        // its end: the format is not the one it knows, there is no ground truth to compare with
+        ctx.sim.probe("ground_truth_decoder_cannot_read_a_file");
+        return;
+    }
     // index == model keys, each entry is the newest on-disk record and decodes to the model value
     let idx: BTreeMap<Vec<u8>, (u64, u64, u64)> = d.index.iter().map(|e| (e.key.clone(), (e.fileid, e.pos, e.len))).collect();
     let mk: BTreeSet<&Vec<u8>> = st.model.keys().collect();
@@ -1019,8 +1057,8 @@ pub fn check_discipline_lineage(ctx: &mut Ctx, rel: &str, scn: &StoreScn, inheri
         if !name.ends_with(".data") {
             continue;
         }
-        let (recs, _) = scan::scan_data(data);
-        if recs.len() >= 2 {
+        let (recs, torn) = scan::scan_data(data);
+        if recs.len() >= 2 && torn == 0 {
             let all_but_last: u64 = recs[..recs.len() - 1].iter().map(|r| r.len).sum();
             if all_but_last > scn.cfg.max_file_size {
                 ctx.viol("file-too-large", format!("data file {} holds {} bytes before its last entry; the configured maximum is {}", name, all_but_last, scn.cfg.max_file_size), "");
